@@ -279,6 +279,9 @@ class ManageSieveConnection:
             return Response(Condition.NO, text='Bad command.')
         resp = Response(Condition.OK)
         await self._write_response(resp)
+        # anything the client sent in plain text ahead of the handshake must
+        # not be read as if it had arrived protected
+        self.reader._buffer.clear()  # type: ignore
         await self.writer.start_tls(ssl_context)
         self._print('%d <->| %s', b'<TLS handshake>')
         self._offer_starttls = False
